@@ -59,7 +59,7 @@ def rule_ctor_keeps_wrappers(prog, rep, R="C12.kept"):
     from ..taint import ann_is_static
     rep.rule(R, "no bijection / distribution constructor stores unwrap(argument) in a non-static field (unwrap may be used "
                 "to read shapes): wrappers passed in are kept, so frozen members stay frozen", minimum=20)
-    classes = bijection_classes(prog) + [k for k in prog.subclasses(DIST)]
+    classes = bijection_classes(prog) + [k for k in prog.subclasses(DIST)] + [k for k in prog.subclasses(UNWRAPPABLE)]
     seen = set()
     for c in classes:
         if c.qualname in seen:
@@ -88,11 +88,32 @@ def rule_ctor_keeps_wrappers(prog, rep, R="C12.kept"):
             if fi is not None and ann_is_static(fi[1].ann_src) is True:
                 continue  # shapes / axes computed from the unwrapped member
             bad = _unwrap_reaches_value(t)
+            if bad and any(b == UNWRAPPABLE or b.endswith(".AbstractUnwrappable") for k_ in prog.mro(c) for b in [k_.qualname]):
+                # a wrapper class may derive the INITIAL VALUE of another field from the unwrapped argument (the norm of
+                # the weight); what it must not do is store the argument itself unwrapped
+                bad = _is_unwrapped_argument(t)
             k = f"{c.qualname}.__init__:{fname}-keeps-wrappers"
             rep.check(not bad, R, site, k, "stores its arguments as given (unwrap only read for shapes)",
                       f"field {fname} stores {show(t, 200)}: the value contains unwrap(...) of a constructor argument, so a "
                       f"NonTrainable / reparameterising wrapper around that argument is resolved once at construction and "
                       f"lost (its leaves become trainable, stop_gradient and the partitions' is_leaf no longer apply)")
+
+
+def _is_unwrapped_argument(t):
+    """t is unwrap(<symbol>) up to array casts and conditionals (one branch suffices)."""
+    CASTS = (("ext", "flowjax.utils.arraylike_to_array"), ("ext", "jax.numpy.asarray"), ("ext", "jax.numpy.array"))
+    while t[0] == "call" and t[1] in CASTS:
+        kw = dict(t[3])
+        nxt = kw.get("arr") or kw.get("a") or (t[2][0] if t[2] else None)
+        if nxt is None:
+            return False
+        t = nxt
+    if t[0] == "ite":
+        return _is_unwrapped_argument(t[2]) or _is_unwrapped_argument(t[3])
+    if t[0] == "call" and t[1] == UNWRAP:
+        a = dict(t[3]).get("tree") or (t[2][0] if t[2] else None)
+        return a is not None and a[0] == "sym"
+    return False
 
 
 def _unwrap_reaches_value(t):
